@@ -3823,7 +3823,20 @@ impl Server {
         // Check all connections for closing state
         for id in self.connections.all_connection_ids() {
             let should_remove = self.connections.with_connection(id, |conn| {
-                conn.is_closing()
+                if !conn.is_closing() {
+                    return false;
+                }
+                // A connection the server closes itself (QUIT, protocol error) or whose peer only closed its
+                // sending side still owes the client the replies in its write buffer: keep it until they are
+                // out, the write fails (peer gone), or nothing has moved for a while
+                if conn.has_pending_writes() {
+                    if let Ok(_) = conn.flush() {
+                        if conn.has_pending_writes() && conn.idle_time() < Duration::from_secs(5) {
+                            return false;
+                        }
+                    }
+                }
+                true
             }).unwrap_or(false);
             
             if should_remove {
